@@ -6,6 +6,7 @@ package dtls
 import (
 	"fmt"
 	"github.com/pion/logging"
+	"math"
 	"os"
 	"strings"
 	"testing"
@@ -248,6 +249,28 @@ func TestVerifHs13Masks(t *testing.T) {
 		}
 		jobs = append(jobs, hs13Job{v, m, opt})
 	}
+	// the server application writes 3 records as soon as its handshake has returned, while its ACK of the client's
+	// final flight and its NewSessionTicket are lost / late / only the ACK is lost / nothing is lost: the client
+	// receives application data before it knows that its final flight arrived
+	for vi, v := range variants {
+		if !vIsThorough() && vi%2 == 1 {
+			continue
+		}
+		fin := hs13Find(hs13Canon(t, v), hs13IsServerFinalAck)
+		early := hs13Opt{ServerWrites: 3, Limit: 200 * time.Second}
+		jobs = append(jobs, hs13Job{v, nil, early}, hs13Job{v, hs13MaskAt(fin, "drop"), early},
+			hs13Job{v, hs13MaskAt(fin, "late:1500"), early}, hs13Job{v, hs13MaskAt(fin[:1], "drop"), early})
+	}
+	// the client's final flight is lost and a forged unprotected handshake fragment (an unused message_seq)
+	// reaches the client while it waits for the acknowledgement: the flight must stay unacknowledged
+	for vi, v := range variants {
+		if !vIsThorough() && vi%2 == 1 {
+			continue
+		}
+		lost := hs13MaskAt(hs13Find(hs13Canon(t, v), hs13IsClientFinal), "drop")
+		forged := []hs13Inject{{AtMs: 300, To: "client", HT: 20, MS: 200, FO: 0, FL: 1, TL: 32, Seq: 500}}
+		jobs = append(jobs, hs13Job{v, lost, hs13Opt{Inject: forged, Limit: 200 * time.Second}})
+	}
 	hs13RunJobs(t, jobs, "hs13-masks")
 }
 
@@ -264,6 +287,73 @@ func TestVerifHs13Timed(t *testing.T) {
 		nb bool
 	}
 	tims := []tim{{0, false}, {10 * time.Millisecond, false}, {40 * time.Second, false}, {0, true}, {250 * time.Millisecond, true}}
+	// an interval configured above the 60 s cap is never shortened, with and without backoff
+	for _, nb := range []bool{false, true} {
+		for vi, v := range variants {
+			if !vIsThorough() && vi >= 3 {
+				continue
+			}
+			for _, to := range []string{"client", "server"} {
+				jobs = append(jobs, hs13Job{v, nil, hs13Opt{
+					Interval: 90 * time.Second, NoBackoff: nb, SilenceFrom: []int{0, 5}[vi%2], SilenceUntil: 300 * time.Second, SilenceTo: to,
+					Limit: 800 * time.Second,
+				}})
+			}
+		}
+	}
+	// the largest interval there is: the server's flight is lost, nothing will ever be retransmitted; one stale
+	// ClientHello fragment reaches the server half a second later: no retransmission loop
+	for vi, v := range variants {
+		if !vIsThorough() && vi >= 3 {
+			continue
+		}
+		lost := hs13MaskAt(hs13Find(hs13Canon(t, v), hs13IsServerFlight4), "drop")
+		stale := []hs13Inject{{AtMs: 500, To: "server", HT: 1, MS: 0, FO: 0, FL: 10, TL: 1563, Seq: 70}}
+		for _, nb := range []bool{false, true} {
+			jobs = append(jobs, hs13Job{v, lost, hs13Opt{Interval: time.Duration(math.MaxInt64), NoBackoff: nb, Inject: stale, Limit: 5 * time.Second}})
+		}
+	}
+	// a forged unprotected fragment while the client waits for the acknowledgement of its (lost) final flight
+	// must not stop the retransmission of that flight
+	for vi, v := range variants {
+		if !vIsThorough() && vi >= 4 {
+			continue
+		}
+		lost := hs13MaskAt(hs13Find(hs13Canon(t, v), hs13IsClientFinal), "drop")
+		for _, iv := range []time.Duration{0, 50 * time.Millisecond} {
+			at := int64(300)
+			if iv > 0 {
+				at = 20
+			}
+			forged := []hs13Inject{{AtMs: at, To: "client", HT: 20, MS: 200, FO: 0, FL: 1, TL: 32, Seq: 500}}
+			jobs = append(jobs, hs13Job{v, lost, hs13Opt{
+				Interval: iv, Inject: forged, SilenceFrom: len(lost), SilenceUntil: 4 * time.Second, SilenceTo: "both", Limit: 300 * time.Second,
+			}})
+		}
+	}
+	// ONE identical handshake fragment of a message that is not assembled yet (message_seq 40), repeated every
+	// 400 ms while the peer is silent: every copy is "new data"
+	for vi, v := range variants {
+		if !vIsThorough() && vi >= 2 {
+			continue
+		}
+		for _, to := range []string{"client", "server"} {
+			var rep []hs13Inject
+			for k := 0; k < 45; k++ {
+				rep = append(rep, hs13Inject{AtMs: int64(1200 + 400*k), To: to, HT: 2, MS: 40, FO: 0, FL: 1, TL: 32, Seq: uint64(600 + k)})
+			}
+			other := "server"
+			from := 0
+			if to == "server" {
+				other = "client"
+				from = len(hs13FirstFlight(t, v)) + 1 // the server has answered once; then the client is silent
+			}
+			jobs = append(jobs, hs13Job{v, nil, hs13Opt{
+				Inject: rep, SilenceFrom: from, SilenceUntil: 20 * time.Second, SilenceTo: "both", Limit: 300 * time.Second,
+			}})
+			_ = other
+		}
+	}
 	sils := []time.Duration{3500 * time.Millisecond, 70 * time.Second, 300 * time.Second}
 	froms := []int{0, 2, 3, 5, 7, 8}
 	for _, tm := range tims {
@@ -456,4 +546,60 @@ func hs13FirstFlight(t *testing.T, v c02Variant) []int {
 	}
 
 	return out
+}
+
+// hs13Canon: the fault-free run of a variant (cached), and where its landmarks are.
+var hs13CanonCache = map[string]hs13Case{} //nolint:gochecknoglobals
+
+func hs13Canon(t *testing.T, v c02Variant) hs13Case {
+	if c, ok := hs13CanonCache[v.Name]; ok {
+		return c
+	}
+	var res hs13Case
+	vBubble(t, func(t *testing.T) { res = runHs13(t, v, nil, hs13Opt{Limit: 50 * time.Second}) })
+	hs13CanonCache[v.Name] = res
+
+	return res
+}
+
+// hs13Find: global indices of the datagrams of the fault-free run selected by pick(side, records).
+func hs13Find(c hs13Case, pick func(side string, recs []hs13Rec) bool) []int {
+	var out []int
+	for _, e := range c.Events {
+		if e.Ev == "emit" && pick(e.Side, e.Recs) {
+			out = append(out, e.Idx)
+		}
+	}
+
+	return out
+}
+
+func hs13MaskAt(idx []int, act string) []string {
+	maxI := 0
+	for _, i := range idx {
+		if i > maxI {
+			maxI = i
+		}
+	}
+	m := make([]string, maxI+1)
+	for j := range m {
+		m[j] = "pass"
+	}
+	for _, i := range idx {
+		m[i] = act
+	}
+
+	return m
+}
+
+func hs13IsClientFinal(side string, recs []hs13Rec) bool {
+	return side == "client" && len(recs) > 0 && recs[0].K == "hs" && recs[0].E == 2
+}
+
+func hs13IsServerFinalAck(side string, recs []hs13Rec) bool {
+	return side == "server" && len(recs) > 0 && (recs[0].K == "ack" || (recs[0].K == "hs" && recs[0].HT == 4))
+}
+
+func hs13IsServerFlight4(side string, recs []hs13Rec) bool {
+	return side == "server" && len(recs) > 0 && recs[0].K == "hs" && recs[0].HT != 6 && recs[0].HT != 4
 }
